@@ -476,7 +476,7 @@ fn bid128_from_string_clear_status(str: &str, rnd_mode: RoundingMode, pfpsf: &mu
             ps       += 1;
 
             if dec_expon == 0 {
-                ps += str.char_indices().take_while(|(i, c)| *i >= ps && *c == '0').count();
+                ps += str.chars().skip(ps).take_while(|c| *c == '0').count();
             }
 
             if str.chars().nth(ps).is_some() {
